@@ -82,6 +82,7 @@ class Function:
         self._dom = None
         self._pdom = None
         self._allocas = None
+        self.has_inlined = any("inlined_from" in i.d for i in self.insts.values())
 
     @property
     def relfile(self):
